@@ -2097,13 +2097,14 @@ class C09(Prop):
             c.keyc = [(8, ispec, oc, [ord(ch) for ch in lit])]
             want[c.id] = 'ok:[' + ','.join(core.doc_render(v) for v in kept) + ']' if kept else 'fail'
             cases.append(c)
-            if r.random() < 0.35:
+            if r.random() < 0.5:
                 # the same operand against several literals joined by || (or &&): the union (intersection) of the single
                 # comparisons, in both decodings of the members (a chain of == on one name is a membership test)
                 eqs = r.random() < 0.7
                 parts = []
+                seen_nums = [(g0[0][1] if g0[0][0] == 'n' else float(g0[0][1])) for x0 in chain_children(body) for g0 in [inner_reach(ispec, [x0])] if g0 and g0[0][0] in 'nj']
                 for _j in range(r.randint(2, 4)):
-                    fv2 = r.choice(pool) + r.choice([0, 0, 0, 0.5])
+                    fv2 = (r.choice(seen_nums) if seen_nums and r.random() < 0.7 else r.choice(pool)) + r.choice([0, 0, 0, 0.5])
                     lit2 = r.choice([repr(fv2), '%g' % fv2])
                     parts.append((0 if eqs else r.randrange(6), lit2, float(lit2)))
                 disj = eqs or r.random() < 0.6
